@@ -64,6 +64,15 @@ def cases(tier, seed):
             if tier == "quick" and dgram == "pair" and spec["m"] != "window":
                 continue
             out.append({"h": "H03b", "dgram": dgram, "variant": variant, "_w": 3, **spec})
+    # the message under mutation is the *second* one of the datagram: its header (incl. the
+    # length field) and the start of its SD payload
+    off = len(FOREIGN)
+    for spec in mutation_specs(28, tier, stride_big=4):
+        if spec["m"] == "dup":
+            continue
+        spec = dict(spec)
+        spec["pos"] += off
+        out.append({"h": "H03b", "dgram": "pair2", "variant": 2, "_w": 3, **spec})
     for variant in (0, 1, 2):
         for spec in mutation_specs(20, tier):
             out.append({"h": "H03s", "variant": variant, **spec})
@@ -241,6 +250,10 @@ def _expected_datagram(E, raw):
     return out, kept
 
 
+# a well-formed request for some other service (not an SD notification)
+FOREIGN = wire.someip_bytes(0x4242, 0x0001, 1, 2, 1, 0, 0, [9, 9, 9, 9])
+
+
 def _datagram(case):
     if case["dgram"] == "single":
         return template_someip(case["variant"])
@@ -248,6 +261,8 @@ def _datagram(case):
         # a valid notification preceded by the message under mutation
         ok = wire.sd_message(9, 0xC0, [wire.sd_entry_bytes(wire.T_OFFER, 0, 0, 0, 0, 0x5555, 1, 1, 3, 0)], [])
         return template_someip(case["variant"]) + ok
+    if case["dgram"] == "pair2":
+        return FOREIGN + template_someip(case["variant"])
     raise KeyError(case["dgram"])
 
 
